@@ -296,13 +296,16 @@ def _upper(A):
 
 
 class TurnRaw:
-    """(theta_b - theta_a)/tau in (-1, 1); the wrap class is decided by polynomial sign forks"""
+    """(theta_b - theta_a)/tau in (-1, 1): the value the library computes before wrapping.  Its
+    comparisons with 0 and 0.5 are decided by polynomial sign forks on the end points."""
 
     def __init__(self, a, b):
         self.a, self.b = a, b
         self.k = None
+        self.sg = None
 
     def wrapclass(self):
+        """+1 if raw >= 1/2, -1 if raw <= -1/2, else 0"""
         if self.k is None:
             a, b = self.a, self.b
             ua, ub = _upper(a), _upper(b)
@@ -318,41 +321,90 @@ class TurnRaw:
             self.k = k
         return self.k
 
+    def sign(self):
+        """sign of raw"""
+        if self.sg is None:
+            k = self.wrapclass()
+            if k:
+                self.sg = k
+            else:
+                a, b = self.a, self.b
+                ua, ub = _upper(a), _upper(b)
+                if ua != ub:
+                    self.sg = 1 if ub else -1  # lower -> upper half: raw in (0, pi)
+                else:
+                    c = a.x * b.y - a.y * b.x
+                    self.sg = 1 if c > 0 else (-1 if c < 0 else 0)
+        return self.sg
+
     def __abs__(self):
         return _AbsTurn(self)
 
-    def __gt__(self, o):
-        if o != 0:
+    def _cmp0(self, o, what):
+        if not (isinstance(o, (int, float)) and o == 0):
             raise Intractable("turn compared with a non-zero value")
-        return self.wrapclass() == 1
+        s = self.sign()
+        return {"gt": s > 0, "lt": s < 0, "ge": s >= 0, "le": s <= 0}[what]
+
+    def __gt__(self, o):
+        return self._cmp0(o, "gt")
+
+    def __lt__(self, o):
+        return self._cmp0(o, "lt")
+
+    def __ge__(self, o):
+        return self._cmp0(o, "ge")
+
+    def __le__(self, o):
+        return self._cmp0(o, "le")
 
     def __sub__(self, o):
-        if not (o == 1 and self.wrapclass() == 1):
-            raise Intractable("unexpected use of a raw turn")
-        return Turn([(self.a, self.b)], -1)
+        if isinstance(o, int) and not isinstance(o, bool):
+            return Turn([(self.a, self.b)], -o, [self])
+        raise Intractable("unexpected arithmetic on a raw turn")
 
     def as_turn(self):
-        if self.wrapclass() != 0:
-            raise Intractable("unwrapped turn used as wrapped")
-        return Turn([(self.a, self.b)], 0)
+        return Turn([(self.a, self.b)], 0, [self])
 
     def __radd__(self, o):
         return self.as_turn().__radd__(o)
 
     def __add__(self, o):
-        if isinstance(o, int) and o == 1 and self.wrapclass() == -1:
-            return Turn([(self.a, self.b)], +1)
+        if isinstance(o, int) and not isinstance(o, bool):
+            return Turn([(self.a, self.b)], +o, [self])
         return self.as_turn() + o
+
+    def __neg__(self):
+        raise Intractable("negated turn")
 
 
 class _AbsTurn:
     def __init__(self, t):
         self.t = t
 
-    def __lt__(self, o):
+    def _half(self, o):
         if o != 0.5:
             raise Intractable("|turn| compared with something other than 0.5")
+
+    def __lt__(self, o):
+        self._half(o)
         return self.t.wrapclass() == 0
+
+    def __ge__(self, o):
+        self._half(o)
+        return self.t.wrapclass() != 0
+
+    def __le__(self, o):
+        # |raw| <= 1/2: additionally true at exactly half a turn
+        self._half(o)
+        t = self.t
+        if t.wrapclass() == 0:
+            return True
+        a, b = t.a, t.b
+        return bool(a.x * b.y - a.y * b.x == 0)
+
+    def __gt__(self, o):
+        return not self.__le__(o)
 
 
 def _same_num(p, q):
@@ -363,17 +415,30 @@ def _same_num(p, q):
 class Turn:
     """sum of wrapped turns: chain of (a, b) angle pairs plus an integer offset"""
 
-    def __init__(self, chain, k):
+    def __init__(self, chain, k, raws=None):
         self.chain, self.k = chain, k
+        self.raws = raws or []
 
     def __add__(self, o):
         if isinstance(o, TurnRaw):
             o = o.as_turn()
-        if isinstance(o, int) and o == 0:
-            return self
+        if isinstance(o, int) and not isinstance(o, bool):
+            if o == 0:
+                return self
+            return Turn(self.chain, self.k + o, self.raws)
         if not isinstance(o, Turn):
             raise Intractable("turn added to a number")
-        return Turn(self.chain + o.chain, self.k + o.k)
+        return Turn(self.chain + o.chain, self.k + o.k, self.raws + o.raws)
+
+    def __sub__(self, o):
+        if isinstance(o, int) and not isinstance(o, bool):
+            return Turn(self.chain, self.k - o, self.raws)
+        raise Intractable("turn minus a non-integer")
+
+    def wrapped_in_half_turn(self):
+        """for a single-piece turn: is raw + offset within [-1/2, 1/2]?"""
+        assert len(self.raws) == 1
+        return self.k == -self.raws[0].wrapclass() or (self.k == 0 and self.raws[0].wrapclass() != 0 and _AbsTurn(self.raws[0]) <= 0.5)
 
     __radd__ = __add__
 
